@@ -143,6 +143,27 @@ def c2mBasicSize : Sc → Nat
   | .enum4 => 4     -- get_enum_basic_type = TP_INT / TP_UINT
   | .enum8 => 8     -- TP_LONG / TP_ULONG
 
+/-! ### underlying type of an enumerated type
+
+`mn` ≤ 0 ≤ `mx`: least and greatest enumerator value (`min_val` starts at 0, `max_val` at 0). -/
+
+/-- `check_decl_spec`, case `N_ENUM`: `enum_type->enum_basic_type` (c2mir.c:6996-7002) -/
+def c2mEnumBase (mn mx : Int) : Sc :=
+  if mx ≤ 2147483647 ∧ -2147483648 ≤ mn then (if mn < 0 then .int else .uint)
+  else if mx ≤ 4294967295 ∧ 0 ≤ mn then .uint
+  else if mx ≤ 9223372036854775807 ∧ -9223372036854775808 ≤ mn then .long
+  else if mx ≤ 18446744073709551615 ∧ 0 ≤ mn then .ulong
+  else if mn < 0 ∨ mx ≤ 9223372036854775807 then .llong
+  else .ullong
+
+/-- the platform compiler (GCC, "Structures, unions, enumerations, and bit-fields" + c-decl.c
+`finish_enum`): unsigned int if there is no negative enumerator and the values fit, int if they fit,
+otherwise the 64-bit type of that signedness -/
+def gccEnumBase (mn mx : Int) : Sc :=
+  if 0 ≤ mn then (if mx ≤ 4294967295 then .uint else .ulong)
+  else if -2147483648 ≤ mn ∧ mx ≤ 2147483647 then .int
+  else .long
+
 /-- `basic_type_align`: `MIR_LDOUBLE_ALIGN` is not defined for x86-64, so it is the size -/
 def c2mBasicAlign (s : Sc) : Nat := c2mBasicSize s
 
